@@ -136,7 +136,9 @@ def perform(rig, call):
     if name == "ac_power":
         return acs[call[1]].set_power(api.AcPowerControl[call[2]])
     if name == "ac_mode":
-        return acs[call[1]].set_mode(api.AcMode[call[2]], power_on=call[3])
+        if not call[3]:
+            return acs[call[1]].set_mode(api.AcMode[call[2]])   # documented default: power_on=False
+        return acs[call[1]].set_mode(api.AcMode[call[2]], power_on=True)
     if name == "ac_fan":
         return acs[call[1]].set_fan_speed(api.AcFanSpeed[call[2]])
     if name == "ac_temp":
